@@ -8,6 +8,7 @@ package ccpair
 
 import (
 	"fmt"
+	"os"
 
 	"github.com/gofiber/fiber/v3/verifrt"
 	"github.com/valyala/fasthttp"
@@ -82,6 +83,9 @@ func Run(r *core.Run, prefix string, scenarios []Scenario, bound int) {
 				core.Fatal("%s concurrent part, scenario %s: the scenario could not be built or served alone (request %s): panics=%v blocked=%v", prefix, sc.Name, q.Name, sres.Panics, sres.Blocked)
 			}
 			solo[q.Name] = got
+			if os.Getenv("CCPAIR_DEBUG") != "" {
+				fmt.Fprintf(os.Stderr, "CCPAIR solo %s %s: %s\n", sc.Name, q.Name, got)
+			}
 		}
 		for i, qa := range sc.Reqs {
 			for j, qb := range sc.Reqs {
@@ -127,6 +131,9 @@ func Run(r *core.Run, prefix string, scenarios []Scenario, bound int) {
 							r.Violate(fmt.Sprintf("%s %s scenario=%s victim=%s", prefix, kind, sc.Name, names[k]),
 								"under some interleaving a request received a response different from the one it receives when served alone on an identically prepared instance", cs, got[k], solo[names[k]])
 						}
+					}
+					if os.Getenv("CCPAIR_DEBUG") == "2" {
+						fmt.Fprintf(os.Stderr, "CCPAIR pair %s %s|%s choices=%v blocked=%v\n", sc.Name, qa.Name, qb.Name, x.Choices(), res.Blocked)
 					}
 					r.Outcome(fmt.Sprintf("%s %s same-as-solo=%v", prefix, sc.Name, got[0] == solo[qa.Name] && got[1] == solo[qb.Name]))
 					return true
